@@ -69,14 +69,16 @@ def run_cli(answers, extra_args=(), silent_after=None, partial=False, timeout=30
         p = subprocess.run([VECLI, "vedirect", "-d", name] + list(extra_args), stdout=subprocess.PIPE, stderr=subprocess.PIPE,
                            timeout=timeout)
         out, err, rc, hung = p.stdout.decode("utf8", "replace"), p.stderr.decode("utf8", "replace"), p.returncode, False
+        outb = p.stdout
     except subprocess.TimeoutExpired as e:
         out, err, rc, hung = (e.stdout or b"").decode("utf8", "replace"), "", -1, True
+        outb = e.stdout or b""
     dt = time.time() - t0
     dev.stop = True
     dev.join(1)
     os.close(master)
     os.close(slave)
-    return dict(out=out, err=err, rc=rc, hung=hung, wall=dt, received=dev.received, sent=dev.sent)
+    return dict(out=out, outb=outb, err=err, rc=rc, hung=hung, wall=dt, received=dev.received, sent=dev.sent)
 
 
 def tx(cmd, addr=None):
@@ -96,6 +98,10 @@ def scenario(rng, t, dev):
             v = apicases.good_value(rng, r, t)
             if kind == 2 and rng.chance(1, 2):
                 v = list(b" Victron %d  " % rng.below(100)) + [0, 0]
+            elif kind == 2 and rng.chance(1, 2):
+                # control characters, a byte that is not UTF-8, a two-byte character: printed as the device holds them,
+                # whatever the logging flags are
+                v = list(rng.choice([b"Cabin\tbank %d", b"a\x01b\x7f %d", b"M\xe9ller %d", b"caf\xc3\xa9\t%d", b"x\x00y %d"]) % rng.below(100)) + [0] * rng.below(3)
             a = get_resp(r["addr"], v)
             answers[tx(7, r["addr"])] = a
             react.append([ev_data(a)])
@@ -111,13 +117,13 @@ def parse_cli_values(out):
     return lines
 
 
-def compare_with_model(res, dev, regs, cli_lines, model_tokens, what, flnames={}):
+def compare_with_model(res, dev, regs, cli_lines, model_tokens, what, flnames={}, raw=None):
     """cli_lines: value lines printed by the CLI; model_tokens: dict name -> model value token"""
     by_sort = {r["name"]: r["sort"] for r in regs}
     kinds = {r["name"]: r["kind"] for r in regs}
     names, prev = [], None
     ok = True
-    for l in cli_lines:
+    for li, l in enumerate(cli_lines):
         m = LINE.match(l)
         if not m or m.group(1) not in by_sort:
             res.add_violation("%s: unexpected output line %r" % (what, l), key="C20:line", input={"device_id": dev}, observed=l)
@@ -145,7 +151,10 @@ def compare_with_model(res, dev, regs, cli_lines, model_tokens, what, flnames={}
             else:
                 good = bool(mm) and mm.group(1) not in ("NaN", "+Inf", "-Inf") and abs(float(mm.group(1)) - q) <= 5e-7 + 1e-9 * max(1, abs(q))
         elif k == 2:
-            good = val.encode("utf8", "replace") == bytes.fromhex(tok[1:]) or val == bytes.fromhex(tok[1:]).decode("utf8", "replace")
+            if raw is not None and li < len(raw) and b"=" in raw[li]:
+                good = raw[li].split(b"=", 1)[1] == bytes.fromhex(tok[1:])      # byte for byte
+            else:
+                good = val.encode("utf8", "replace") == bytes.fromhex(tok[1:]) or val == bytes.fromhex(tok[1:]).decode("utf8", "replace")
         elif k == 3:
             idx, nm = tok[1:].split(":")
             good = val == "%s:%s" % (idx, bytes.fromhex(nm).decode())
@@ -203,7 +212,8 @@ def run(res, args):
                 os.remove(flags[1])
             r = run_cli(answers, flags)
             evals += 1
-            lines = r["out"].splitlines()
+            rawl = [x for x in r["outb"].split(b"\n") if x != b""]
+            lines = [x.decode("utf8", "replace") for x in rawl]
             what = "device %#06x flags %s" % (dev, " ".join(flags) or "-")
             samples.append({"device_id": dev, "flags": flags, "first_lines": lines[:3], "wall_s": round(r["wall"], 2)})
             if r["hung"]:
@@ -213,7 +223,7 @@ def run(res, args):
                 res.add_violation("%s: first line %r does not report %d fetched registers" % (what, lines[:1], len(model_tokens)),
                                   key="C20:first-line", input={"device_id": dev}, observed=r["out"][:500])
                 continue
-            compare_with_model(res, dev, regs, lines[1:], model_tokens, what, t.get("flnames", {}))
+            compare_with_model(res, dev, regs, lines[1:], model_tokens, what, t.get("flnames", {}), raw=rawl[1:])
             # frames the device saw: ping, device id, then one Get per register in the model's order
             if "--io-log" in flags:
                 rc2, rout = common.sh("%s ioreplay %s" % (common.GVRUN, flags[1]))
@@ -239,9 +249,11 @@ def run(res, args):
             for partial in (False, True):
                 if partial and (k == 0 or (res.tier == "quick" and k not in (3, nregs + 1))):
                     continue
-                r = run_cli(answers, [], silent_after=k, partial=partial, timeout=30)
+                sflags = [[], ["--io-log", os.path.join(common.BUILD, "tmp", "c20-io-silent.log")], ["-v"],
+                          ["-v", "--io-log", os.path.join(common.BUILD, "tmp", "c20-io-silent.log")]][(k + (1 if partial else 0) + silent_devs.index(dev2)) % 4]
+                r = run_cli(answers, sflags, silent_after=k, partial=partial, timeout=30)
                 evals += 1
-                what = "device %#06x silent after %d answers%s" % (dev2, k, " (mid-frame)" if partial else "")
+                what = "device %#06x silent after %d answers%s flags %s" % (dev2, k, " (mid-frame)" if partial else "", " ".join(sflags[:1]) or "-")
                 lines = r["out"].splitlines()
                 if r["hung"]:
                     res.add_violation("%s: vecli hangs (no exit within 30 s)" % what, key="C20:hang", input={"device_id": dev2, "silent_after": k, "partial": partial})
